@@ -14,7 +14,13 @@ import (
 	"time"
 )
 
-const Root = "/verif"
+// Root is the verif directory the check runs from (a snapshot worktree under `vp run`, /verif otherwise).
+var Root = func() string {
+	if r := os.Getenv("VERIF_ROOT"); r != "" {
+		return r
+	}
+	return "/verif"
+}()
 
 // Failure is one violation of a property found by a check.
 type Failure struct {
